@@ -126,6 +126,9 @@ func Assert(c bool, label string) {
 		mu.Lock()
 		Failed = append(Failed, label)
 		mu.Unlock()
+		// an assertion may fail in a goroutine of the code under test (e.g. inside a store hook),
+		// where nothing recovers the panic: leave a line the replay driver can read
+		fmt.Println("VERIF-ASSERT-FAILED " + label)
 		panic(AssertFailure{label})
 	}
 }
